@@ -173,5 +173,8 @@ def run(ck, facts, tier):
              "oracle rows do not make (0,0,0)/(1,0,0) neutral", sample="u + 0 = u, u * 1 = u in value, gradient and Hessian by the table")
     from rules import deps
     deps.include_number_surface(ck, facts, tier)
+    # the remainder, ordering and sums of two numbers on different variable lists go through the alignment (to_union_vars / to_new_vars): its by-name
+    # gather, for gradients and Hessians, is a necessary condition of "value and derivatives" here too
+    deps.include_alignment(ck, facts, tier)
     ck.not_decided += ["NaN ordering (partial_cmp returns None; derived operators are then all false)", "abs at exactly zero (derivative undefined; either branch accepted)"]
     ck.trusted += ["lib/cel.py", "lib/oracle.py"]
